@@ -12,7 +12,7 @@ from pyvc import sym
 from pyvc.sym import lift, cfrac_eq, frac_eq
 from pyvc.interp import PyRaise
 from pyvc.oblig import obligation, verify, bounded, Goal, merge
-from .common import stable_rng, quick, Frame
+from .common import stable_rng, quick, Frame, num
 from .C08 import _cmat
 from .C20 import _rmat, _conjT, _meq
 
@@ -52,6 +52,111 @@ def _energy(A):
     return tot
 
 
+def _native_H(kind, rr):
+    r, k = {"c2x2": (2, 2), "r3x2": (3, 2), "c2x1": (2, 1), "c3x1": (3, 1)}[kind]
+    return rr.randn(r, k) + (0 if kind.startswith("r") else 1j * rr.randn(r, k))
+
+
+def _replay_blast(kind):
+    def rp(model):
+        from pyphysim.mimo import mimo
+        try:
+            for seed in range(3):
+                rr = np.random.RandomState(40 + seed)
+                H = _native_H(kind, rr)
+                Nt = H.shape[1]
+                x = rr.randn(2 * Nt) + 1j * rr.randn(2 * Nt)
+                b = mimo.Blast(H)
+                enc = b.encode(x)
+                dec = b.decode(H @ enc)
+                where = {"confirmed": True, "channel": kind}
+                if np.shape(enc) != (Nt, 2):
+                    return dict(where, encoded_shape=list(np.shape(enc)))
+                if (not (np.abs(dec - x).max() <= 1e-9)):
+                    return dict(where, what="decode(H encode(x)) != x", max_abs_error=float(np.abs(dec - x).max()))
+                W = mimo.MimoBase._calcZeroForceFilter(H)
+                if (not (np.abs(W @ H - np.eye(Nt)).max() <= 1e-9)):
+                    return dict(where, what="zero-forcing filter: W H != I", max_abs_error=float(np.abs(W @ H - np.eye(Nt)).max()))
+                if (not (abs(np.sum(np.abs(enc) ** 2) * Nt - np.sum(np.abs(x) ** 2)) <= 1e-9 * np.sum(np.abs(x) ** 2))):
+                    return dict(where, what="encoded energy * Nt != data energy", encoded=float(np.sum(np.abs(enc) ** 2)), data=float(np.sum(np.abs(x) ** 2)))
+            return {"confirmed": False, "note": "real Blast round-trips generic data"}
+        except Exception as e:
+            return {"confirmed": False, "error": "replay crashed: %r" % (e,)}
+    return rp
+
+
+def _replay_mmse(kind):
+    def rp(model):
+        from pyphysim.mimo import mimo
+        try:
+            s2m = num(model.get("s2"), 0.0) if isinstance(model, dict) else 0.0
+            for seed, s2 in enumerate([float(s2m) if s2m and s2m > 0 else 0.3, 0.3, 1e-6, 25.0]):
+                rr = np.random.RandomState(50 + seed)
+                H = _native_H(kind, rr)
+                Nt = H.shape[1]
+                W = mimo.MimoBase._calcMMSEFilter(H, s2)
+                HH = H.conj().T
+                err = float(np.abs((HH @ H + s2 * np.eye(Nt)) @ W - HH).max())
+                where = {"confirmed": True, "channel": kind, "noise_var": s2}
+                if (not (err <= 1e-9 * max(1.0, float(np.abs(HH).max())))):
+                    return dict(where, what="(H^H H + s2 I) W != H^H", max_abs_error=err)
+                Wz = mimo.MimoBase._calcZeroForceFilter(H)
+                try:
+                    with np.errstate(all="ignore"):
+                        W0 = mimo.MimoBase._calcMMSEFilter(H, 0.0)
+                    bad0 = (not np.all(np.isfinite(W0))) or (not (np.abs(W0 - Wz).max() <= 1e-8 * max(1.0, float(np.abs(Wz).max()))))
+                    if bad0:
+                        return dict(where, what="MMSE filter at noise variance 0 is not the zero-forcing filter",
+                                    max_abs_difference=float(np.abs(W0 - Wz).max()) if np.all(np.isfinite(W0)) else "non-finite")
+                except np.linalg.LinAlgError as e:
+                    return dict(where, what="MMSE filter at noise variance 0 raised %r (zero-forcing filter expected)" % (e,))
+                k = math.sqrt(Nt)
+                for nv, want, lab in ((None, Wz * k, "None -> ZF"), (0.0, Wz * k, "0 -> ZF"), (s2, W * k, "s2 -> MMSE")):
+                    got = mimo.Blast._calc_receive_filter(H, nv)
+                    if (not (np.abs(got - want).max() <= 1e-9 * max(1.0, float(np.abs(want).max())))):
+                        return dict(where, what="receive filter for noise " + lab, max_abs_error=float(np.abs(got - want).max()))
+            return {"confirmed": False, "note": "real MMSE filter satisfies its defining equation for generic channels"}
+        except Exception as e:
+            return {"confirmed": False, "error": "replay crashed: %r" % (e,)}
+    return rp
+
+
+def _replay_noise_history(model):
+    from pyphysim.mimo import mimo
+    try:
+        rr = np.random.RandomState(60)
+        H = rr.randn(2, 2) + 1j * rr.randn(2, 2)
+        x = rr.randn(2) + 1j * rr.randn(2)
+        s2 = 0.4
+        b = mimo.Blast(H)
+        rx = H @ b.encode(x)
+        b.set_noise_var(s2)
+        d1 = b.decode(rx)
+        Wm = mimo.MimoBase._calcMMSEFilter(H, s2) * math.sqrt(2)
+        if (not (np.abs(d1 - (Wm @ rx).reshape(-1, order='F')).max() <= 1e-9)):
+            return {"confirmed": True, "step": "set_noise_var(s2) -> decode", "what": "not the MMSE decode"}
+        b.set_noise_var(None)
+        if (not (np.abs(b.decode(rx) - x).max() <= 1e-9)):
+            return {"confirmed": True, "step": "set_noise_var(s2), decode, set_noise_var(None), decode", "max_abs_error": float(np.abs(b.decode(rx) - x).max())}
+        b.set_noise_var(s2)
+        b.decode(rx)
+        b.set_noise_var(0.0)
+        if (not (np.abs(b.decode(rx) - x).max() <= 1e-9)):
+            return {"confirmed": True, "step": "set_noise_var(s2), decode, set_noise_var(0.0), decode", "max_abs_error": float(np.abs(b.decode(rx) - x).max())}
+        G = rr.randn(2, 2) + 1j * rr.randn(2, 2)
+        b.set_channel_matrix(G)
+        if (not (np.abs(b.decode(G @ b.encode(x)) - x).max() <= 1e-9)):
+            return {"confirmed": True, "step": "set_channel_matrix, decode", "what": "does not decode with the new channel"}
+        try:
+            b.set_noise_var(-1.0)
+            return {"confirmed": True, "step": "set_noise_var(-1.0)", "what": "accepted"}
+        except ValueError:
+            pass
+        return {"confirmed": False, "note": "real Blast follows the noise-variance history for generic values"}
+    except Exception as e:
+        return {"confirmed": False, "error": "replay crashed: %r" % (e,)}
+
+
 @obligation("blast/zf_round_trip_and_power", params=[{"H": k} for k in ("c2x2", "r3x2")], timeout=120,
             desc="Blast with a symbolic full-column-rank channel and symbolic data (two channel uses): decode(H encode(x)) == x; ZF filter "
                  "W H == I; encoded block energy * Nt == data energy (1/Nt power split)")
@@ -79,7 +184,7 @@ def ob_blast(H):
         except PyRaise as pr:
             goals.append(Goal("length not a multiple of the layers -> ValueError", isinstance(pr.exc, ValueError)))
         return goals
-    return verify(body, check_side=False, timeout_ms=120000)
+    return verify(body, check_side=False, timeout_ms=120000, replay=_replay_blast(H))
 
 
 @obligation("mmse/defining_equation", params=[{"H": k} for k in ("c2x2", "r3x2", "c2x1")], timeout=120,
@@ -92,6 +197,7 @@ def ob_mmse(H):
         Nt = Hm.shape[1]
         s2 = c.var("s2", "real")
         c.assume(s2 > 0)
+        c.inputs["s2"] = s2
         W = it.call(mimo.MimoBase._calcMMSEFilter, [Hm, s2])
         HH = _conjT(Hm)
         lhs = np.dot(np.dot(HH, Hm) + np.eye(Nt, dtype=object) * s2, W)
@@ -104,7 +210,7 @@ def ob_mmse(H):
         goals.append(Goal("receive filter (noise 0) == sqrt(Nt) ZF", _meq(it.call(mimo.Blast._calc_receive_filter, [Hm, 0.0]), Wz * k)))
         goals.append(Goal("receive filter (noise s2>0) == sqrt(Nt) MMSE", _meq(it.call(mimo.Blast._calc_receive_filter, [Hm, s2]), W * k)))
         return goals
-    return verify(body, check_side=False, timeout_ms=120000)
+    return verify(body, check_side=False, timeout_ms=120000, replay=_replay_mmse(H))
 
 
 @obligation("blast/noise_var_history", timeout=120,
@@ -140,7 +246,7 @@ def ob_history():
         except PyRaise as pr:
             goals.append(Goal("negative noise variance -> ValueError", isinstance(pr.exc, ValueError)))
         return goals
-    return verify(body, check_side=False, timeout_ms=120000)
+    return verify(body, check_side=False, timeout_ms=120000, replay=_replay_noise_history)
 
 
 @obligation("mrc/round_trip", params=[{"H": k} for k in ("c2x1", "c3x1")], timeout=120,
